@@ -129,9 +129,9 @@ func runC02(cfg *vh.Config) error {
 		Type:   "c02case",
 		Check:  "c02_check",
 	}
-	n := cfg.Scale(230, 2400)
+	n := cfg.Scale(180, 2400)
 	distinct := vh.Distinct{}
-	const perShard = 40
+	const perShard = 30
 	stats := map[string]int{}
 	corpus := j5sgen.Corpus()
 	for i := 0; i < n+len(corpus); i++ {
@@ -194,7 +194,7 @@ func runC02(cfg *vh.Config) error {
 	}
 	// ---- malformed stream: a valid bundle broken in one place must be rejected, by the compiler
 	// (with an error, not a panic) and by the model
-	nBad := cfg.Scale(60, 500)
+	nBad := cfg.Scale(45, 500)
 	for i := 0; i < nBad; i++ {
 		r := cfg.R.Fork(fmt.Sprintf("c02-bad-%d", i))
 		gcfg := j5sgen.DefaultConfig()
